@@ -95,7 +95,9 @@ def framing_variants():
     for name, line in (("two-sp", b"GET  /a HTTP/1.1"), ("tab-sep", b"GET\t/a HTTP/1.1"), ("trail-sp", b"GET /a HTTP/1.1 "), ("lead-sp", b" GET /a HTTP/1.1"),
                        ("ver-lower", b"GET /a http/1.1"), ("ver-11x", b"GET /a HTTP/1.10"), ("ver-2", b"GET /a HTTP/2.0"), ("no-ver", b"GET /a"),
                        ("method-paren", b"G(T /a HTTP/1.1"), ("no-target", b"GET HTTP/1.1"), ("target-nul", b"GET /a\x00b HTTP/1.1"), ("target-tab", b"GET /a\tb HTTP/1.1"),
-                       ("extra-word", b"GET /a HTTP/1.1 x"), ("lf-only", b"GET /a HTTP/1.1\n")):
+                       ("extra-word", b"GET /a HTTP/1.1 x"), ("lf-only", b"GET /a HTTP/1.1\n"),
+                       ("abs-bad-ipv6", b"GET http://[::1/ HTTP/1.1"), ("abs-bad-ipv6-2", b"GET http://[x]/ HTTP/1.1"), ("abs-bad-port", b"GET http://h:99999999/ HTTP/1.1"),
+                       ("abs-brackets", b"GET http://h]/ HTTP/1.1")):
         V.append(("rl-" + name, line + CRLF + b"Host: h" + CRLF + CRLF))
     return V
 
